@@ -215,7 +215,20 @@ function getSource(re) {
 
 // ---------------------------------------------------------------- host world
 
+// Source-text reflection is outside the property: the minifier is entitled to change the text of a function or class,
+// so inside the sandbox Function.prototype.toString of non-native functions (`''+f`, String(f), \`\${this}\` in a static
+// initialiser, f.toString()) yields one canonical text.
 const FACTORY_SRC = `"use strict";
+(function () {
+  const nativeToString = Function.prototype.toString;
+  const isNat = (f) => { try { return /\\{\\s*\\[native code\\]\\s*\\}\$/.test(nativeToString.call(f)); } catch (e) { return false; } };
+  Object.defineProperty(Function.prototype, 'toString', {
+    value: function toString() {
+      if (typeof this === 'function' && !isNat(this)) return 'function () { [code] }';
+      return nativeToString.call(this);
+    }, writable: true, configurable: true,
+  });
+})();
 ({
   mkFn(impl, label) {
     const w = function (...args) { return impl(label, this, args, new.target !== undefined); };
